@@ -64,17 +64,26 @@ def gen_frame_program(rng, n_ops=None, stateful=True):
     geom = F.gen_geom(rng)
     geom["fchans"] = max(geom["fchans"], 8)
     geom["tchans"] = max(geom["tchans"], 3)
+    # SCALE: a survey-sized frame (estimators that subsample or work block-wise beyond some size must stay seeded)
+    huge = n_ops is None and rng.random() < 0.04
+    if huge:
+        geom["tchans"], geom["fchans"] = rng.choice([(32, 65536), (20, 100000), (17, 131072), (300, 4096)])
+        nroots = 1
     nid = 0
     for _ in range(nroots):
-        g = geom if rng.random() < 0.8 else F.gen_geom(rng)
+        g = geom if (huge or rng.random() < 0.8) else F.gen_geom(rng)
         g["tchans"] = max(g["tchans"], 3)
         g["fchans"] = max(g["fchans"], 8)
         spec = F.gen_frame_spec(rng, g)
+        if huge:
+            spec["route"] = rng.choice(["data", "from_data", "sizes"])
         prog.append({"op": "f_create", "id": nid, "spec": spec, "marker": rng.random() < 0.5})
         nid += 1
-    for _ in range(n_ops if n_ops is not None else rng.randint(2, 10)):
+    for _ in range(n_ops if n_ops is not None else (rng.randint(2, 10) if not huge else rng.randint(2, 4))):
         fid = rng.randrange(nid)
         r = rng.random()
+        if huge:
+            r = rng.choice([0.1, 0.1, 0.1, 0.3, 0.45, 0.93])       # noise, noise, noise, inject, copy, meta
         if r < 0.16:
             prog.append({"op": "f_noise", "id": fid, "kind": rng.choice(["chi2", "gaussian", "truncated"]), "x_mean": rng.choice([10.0, 5.5]),
                          "x_std": rng.choice([1.0, 3.0]), "x_min": rng.choice([0.0, 9.0])})
